@@ -31,6 +31,12 @@ Numerals ==
         Numeral(FALSE, <<4>>, <<9>>, E1(TRUE, <<3,2,4>>)),                                    \* min subnormal
         Numeral(FALSE, <<2>>, <<2,2,5,0,7,3,8,5,8,5,0,7,2,0,1,4>>, E1(TRUE, <<3,0,8>>)),      \* min normal
         Numeral(FALSE, <<0>>, <<1>>, NoExp), Numeral(FALSE, <<0>>, <<3>>, NoExp),
+        \* subnormal doubles written with few digits; the largest finite numerals (trailing zeros, 19-20 digits, just below the maximum)
+        Numeral(FALSE, <<2>>, <<1,8>>, E1(TRUE, <<3,0,8>>)), Numeral(FALSE, <<2>>, <<1,9,0>>, E1(TRUE, <<3,0,8>>)), Numeral(FALSE, <<2>>, <<1,9>>, E1(TRUE, <<3,0,8>>)),
+        Numeral(TRUE, <<1>>, <<2,3,4>>, E1(TRUE, <<3,1,0>>)), Numeral(FALSE, <<9>>, <<8,7>>, E1(TRUE, <<3,2,0>>)), Numeral(FALSE, <<3>>, <<3>>, E1(TRUE, <<3,1,5>>)),
+        Numeral(FALSE, <<1>>, <<7,9,7,6,9,3,1,3,4,8,6,2,3,1,5,7,0,0>>, E1(FALSE, <<3,0,8>>)), Numeral(FALSE, <<1>>, <<7,9,7,6,9,3,1,3,4,8,6,2,3,1,5,7,0,8,1>>, E1(FALSE, <<3,0,8>>)),
+        Numeral(FALSE, <<1>>, <<7,9,7,6,9,3,1,3,4,8,6,2,3,1,5,6,4,9>>, E1(FALSE, <<3,0,8>>)), Numeral(TRUE, <<1>>, <<7,9,7,6,9,3,1,3,4,8,6,2,3,1,5,7,0>>, E1(FALSE, <<3,0,8>>)),
+        Numeral(FALSE, <<1>>, <<5>>, E1(TRUE, <<2,2>>)), Numeral(FALSE, <<7>>, <<8>>, E1(TRUE, <<2,2>>)), Numeral(FALSE, <<3>>, <<9>>, E1(TRUE, <<2,8>>)),
         \* doubles that are also exact in single precision but need more than nine digits: 2^32, 2^30, 2^40, 2^53 as floats, 2^-14, 2^-20
         Numeral(FALSE, <<4,2,9,4,9,6,7,2,9,6>>, <<0>>, NoExp), Numeral(TRUE, <<1,0,7,3,7,4,1,8,2,4>>, <<0>>, NoExp), Numeral(FALSE, <<1,0,9,9,5,1,1,6,2,7,7,7,6>>, <<0>>, NoExp),
         Numeral(FALSE, <<9,0,0,7,1,9,9,2,5,4,7,4,0,9,9,2>>, <<0>>, NoExp), Numeral(FALSE, <<0>>, <<0,0,0,0,6,1,0,3,5,1,5,6,2,5>>, NoExp),
@@ -126,7 +132,13 @@ StructTexts == <<
   <<123,34,34,58,49,44,34,97,34,58,50,125>>, <<123,34,97,34,58,123,34,34,58,110,117,108,108,125,125>>, <<91,123,34,34,58,91,93,125,93>>, <<123,34,34,58,123,34,34,58,34,34,125,125>>,   \* empty-string keys
   <<123,34,34,58,49,44,34,34,58,50,125>>, <<91,34,34,44,34,34,93>>, <<123,34,32,34,58,49,44,34,34,58,50,125>>,
   <<123,34,233,34,58,49,44,34,101,34,58,50,44,34,122,34,58,51,44,34,90,34,58,52,44,34,128512,34,58,53,44,34,65535,34,58,54,125>> >>
+RECURSIVE RepSeq(_, _)
+RepSeq(s, n) == IF n = 0 THEN <<>> ELSE s \o RepSeq(s, n - 1)
+DeepTexts == << RepSeq(<<91>>, 127) \o RepSeq(<<93>>, 127), RepSeq(<<91>>, 128) \o RepSeq(<<93>>, 128), RepSeq(<<91>>, 64) \o <<49>> \o RepSeq(<<93>>, 64),
+               RepSeq(<<123, 34, 97, 34, 58>>, 127) \o <<49>> \o RepSeq(<<125>>, 127), RepSeq(<<123, 34, 97, 34, 58>>, 128) \o <<49>> \o RepSeq(<<125>>, 128),
+               RepSeq(<<91>>, 200) \o RepSeq(<<93>>, 200) >>
 StructCases(zzdummy) == [i \in DOMAIN StructTexts |-> [e |-> "json", kind |-> "struct", text |-> StructTexts[i], numerals |-> <<>>, classes |-> <<>>]]
+                        \o [i \in DOMAIN DeepTexts |-> [e |-> "json", kind |-> "struct", text |-> DeepTexts[i], numerals |-> <<>>, classes |-> <<>>]]
 
 ASSUME ndJsonSerialize(IOEnv.OUT, NumCases(0) \o StrCases(0) \o StructCases(0) \o PairCases(0) \o LongStrCases(0))
 =============================================================================
